@@ -53,7 +53,7 @@ def decDef : T → Option Def
 
 def cfgCurOf (tb : Tables) : Cfg :=
   { subtypeNarrow := tb.subtypeNarrow, dupScalarDropped := tb.dupScalarDropped,
-    dirArgWrapperAccepted := tb.dirArgWrapperAccepted, dirRequiredUnchecked := tb.dirRequiredUnchecked, dirLoopByVisited := tb.dirLoopByVisited }
+    dirArgWrapperAccepted := tb.dirArgWrapperAccepted, dirRequiredUnchecked := tb.dirRequiredUnchecked, dirLoopByVisited := tb.dirLoopByVisited, dupMembersAccepted := tb.dupMembersAccepted }
 
 /-- case: (c13 MUTATION (l DEF…)); obs: (obs accepted offenderNamed) -/
 def handle (tb : Tables) (c impl : T) : String :=
@@ -78,7 +78,7 @@ def handle (tb : Tables) (c impl : T) : String :=
                let toggles : List (String × Cfg) :=
                  ([("D28", { cfgCur with fieldDirUsesUnchecked := false }), ("D29", { cfgCur with argLocIsInputField := false }),
                   ("D43", { cfgCur with dupScalarDropped := false }), ("D43s", { cfgCur with dupScalarOverScalar := false }), ("D44", { cfgCur with dirArgWrapperAccepted := false }),
-                  ("D45", { cfgCur with subtypeNarrow := false }), ("D78", { cfgCur with dirRequiredUnchecked := false }), ("D83", { cfgCur with dirLoopByVisited := false })] : List (String × Cfg))
+                  ("D45", { cfgCur with subtypeNarrow := false }), ("D78", { cfgCur with dirRequiredUnchecked := false }), ("D83", { cfgCur with dirLoopByVisited := false }), ("D89", { cfgCur with dupMembersAccepted := false })] : List (String × Cfg))
                let trig := toggles.filter (fun p => checkAll cm tc p.2 s != predicted)
                if acc == wf && !named then "unattributed offender-not-named"
                else if trig.isEmpty then "unattributed (obs " ++ toString predicted ++ ")"
@@ -91,6 +91,6 @@ def handle (tb : Tables) (c impl : T) : String :=
 def flags (tb : Tables) : List (String × Bool) :=
   let cfgCur := cfgCurOf tb
   [("D28", cfgCur.fieldDirUsesUnchecked), ("D29", cfgCur.argLocIsInputField), ("D43", cfgCur.dupScalarDropped), ("D43s", cfgCur.dupScalarOverScalar),
-   ("D44", cfgCur.dirArgWrapperAccepted), ("D45", cfgCur.subtypeNarrow), ("D78", cfgCur.dirRequiredUnchecked), ("D83", cfgCur.dirLoopByVisited)]
+   ("D44", cfgCur.dirArgWrapperAccepted), ("D45", cfgCur.subtypeNarrow), ("D78", cfgCur.dirRequiredUnchecked), ("D83", cfgCur.dirLoopByVisited), ("D89", cfgCur.dupMembersAccepted)]
 
 end Ggql.Driver.C13
